@@ -10,10 +10,19 @@ macro "sim'" : tactic => `(tactic| repeat (first
 theorem sim_emplaceAtomic (v : IVal) (bl : Nat) (bt : BaseType) (enc : Option Enc) (hl : Bool) (m : Option Bytes) :
     Sim (emplaceAtomic v bl bt enc hl m) := by
   unfold emplaceAtomic
-  apply sim_bind
-  · cases bt <;> cases v <;> simp only [] <;> sim'
-  · intro p
-    sim'
+  dsimp only
+  split
+  · apply sim_bind
+    · exact sim_raise _
+    · intro _
+      apply sim_bind
+      · cases bt <;> cases v <;> simp only [] <;> sim'
+      · intro p
+        sim'
+  · apply sim_bind
+    · cases bt <;> cases v <;> simp only [] <;> sim'
+    · intro p
+      sim'
 
 theorem sim_convertRaw (bt : BaseType) (enc : Option Enc) (hl : Bool) (bl raw : Nat) :
     Sim (convertRaw bt enc hl bl raw) := by
@@ -27,28 +36,12 @@ theorem sim_extractCore (bl : Nat) (bt : BaseType) (enc : Option Enc) (hl : Bool
   · exact sim_getS
   · intro s
     dsimp only
-    split
-    · exact sim_raise _
-    · split
-      · exact sim_raise _
-      · apply sim_bind
-        · exact sim_convertRaw _ _ _ _ _
-        · intro v; sim'
+    repeat (first | exact sim_convertRaw _ _ _ _ _ | split | sim_step)
 
 theorem sim_extractAtomic (bl : Nat) (bt : BaseType) (enc : Option Enc) (hl : Bool) :
     Sim (extractAtomic bl bt enc hl) := by
   unfold extractAtomic
-  split
-  · sim'
-  · split
-    · apply sim_bind
-      · exact sim_odxraise _
-      · intro _; exact sim_extractCore _ _ _ _
-    · split
-      · apply sim_bind
-        · exact sim_odxraise _
-        · intro _; exact sim_extractCore _ _ _ _
-      · exact sim_extractCore _ _ _ _
+  repeat (first | exact sim_extractCore _ _ _ _ | split | sim_step)
 
 macro "sim''" : tactic => `(tactic| repeat (first
     | exact sim_emplaceAtomic _ _ _ _ _ _ | exact sim_extractAtomic _ _ _ _
